@@ -103,6 +103,10 @@ def _Rrel(r, rt):
     k, d = r[1], r[2]
     if k in (1, 2, 3):
         return rt == ("err", k, d, 0)
+    # Absent / Access / Invalid / Inner at depth d: d keys were consumed before; the key that is not found at depth dn
+    # was the dn-th one, so only dn - 1 keys can have been consumed
+    if rt[0] != "ok" and rt[1] == 2:
+        return d < rt[2]
     rtd = rt[1] if rt[0] == "ok" else rt[2]
     return d <= rtd
 
@@ -115,8 +119,30 @@ def ref_res(prog, op):
     return ("ok", d) if kind == "ok" else ("err", REFK[kind], d, 0), steps
 
 
+def _absent_check(prog, case, outs, bad):
+    """an Option::None / inactive variant on the path makes every value operation fail with Absent at that depth and
+    leaves the tree unchanged (no callbacks, deny or other gates on the path)"""
+    val = prog.states[case["state"]]
+    for j, (op, o) in enumerate(zip(case["ops"], outs)):
+        if op["op"] not in ("ser", "de", "ref", "mut") or op.get("_steps") is None or o == PANIC or op.get("oracle"):
+            continue
+        st = [tuple(x) for x in op["_steps"]]
+        try:
+            ra = SP.ref_absent(prog.t, val, st)
+        except Exception:
+            ra = None
+        if ra is None or ra[0] != "absent":
+            continue
+        r = res_kind(o[0]) if op["op"] in ("ser", "de") else (("ok", 0) if (o[0][0] == 0) else ("err", o[0][1], o[0][2], o[0][3]))
+        if r[0] == "ok" or not (r[1] == 0 and r[2] == ra[1]):
+            bad.append((j, "node %r is absent at run time (noticed after %d keys): %s must report Absent(%d), got %r" % ([s_[0] for s_ in st], ra[1], op["op"], ra[1], o[0])))
+        elif o[-1] != [1]:
+            bad.append((j, "%s failed with Absent but changed the tree" % op["op"]))
+
+
 def pred_c02(prog, case, outs, tables):
     bad = []
+    _absent_check(prog, case, outs, bad)
     # the type-level traversal against the documented walk, for every key (valid or malformed)
     for j, (op, o) in enumerate(zip(case["ops"], outs)):
         if o == PANIC:
@@ -251,10 +277,12 @@ def _iter_expect(prog, op):
 
 
 def _iter_expect_collapsed(prog, op):
-    """expected items of an unrooted iteration when all nodes below one failing key prefix are reported once"""
+    """expected items of an iteration (rooted or not) when all nodes below one failing key prefix are reported once"""
     D, tg = op["d"], op["tg"]
+    root = [tuple(x) for x in (op.get("_root") or [])]
     items, last = [], None
-    for st, leaf in SP.enum(prog.t, D):
+    for st0, leaf in SP.enum(SP.subtree(prog.t, root), D - len(root)):
+        st = root + st0
         r = SP.render(st, tg, D)
         if r is not None:
             items.append([0, r, len(st), int(leaf)]); last = None
@@ -302,6 +330,11 @@ def pred_iter(prog, case, outs, tables, rooted):
                 if o[2] != want:
                     bad.append((j, "ExactSize len() sequence %r, items actually yielded %d (remaining lengths %r)" % (o[2][:8], len(items), want[:8]), cls))
             continue
+        if op["op"] == "iter" and o == PANIC and not op.get("_known"):
+            r0 = bool(op.get("root") is not None or "cap" in op["tg"] or op["d"] < prog.maxd or op.get("exact"))
+            if r0 == rooted:
+                bad.append((j, "iteration panicked instead of terminating"))
+            continue
         if op["op"] != "iter" or o == PANIC or op.get("_known"):
             continue
         is_rooted = bool(op.get("root") is not None or "cap" in op["tg"] or op["d"] < prog.maxd or op.get("exact"))
@@ -346,7 +379,7 @@ def pred_iter(prog, case, outs, tables, rooted):
             if len(got) > len(exp):
                 bad.append((j, "more items (%d) than nodes (%d)" % (len(got), len(exp))))
             # one error item, carrying the failing depth, per key prefix that cannot be written
-            if op.get("root") is None and not op.get("root0"):
+            if (op.get("root") is None or op.get("_root") is not None) and not op.get("root0") and len(op.get("_root") or []) <= op["d"]:
                 expc = _iter_expect_collapsed(prog, op)
                 if got != expc and not bad:
                     k = next((i for i, (a, b) in enumerate(zip(got, expc)) if a != b), min(len(got), len(expc)))
